@@ -371,7 +371,7 @@ def oracle_maps(pattern, frame, peaks, method):
     return maps, corr_scale(mask, max(Lmax, 1e-9))
 
 
-def oracle_eval(cm, impl, c, p, scale):
+def oracle_eval(cm, impl, c, p, scale, upsampled=False):
     """check one peak's outputs against the definitions on the map cm; returns list of problems"""
     N = 2 * c
     problems = []
@@ -400,7 +400,13 @@ def oracle_eval(cm, impl, c, p, scale):
             tol_r = 2e-3 + 400.0 * (3e-7 * scale + 1e-5) / max(s, 1e-12)
     irw = (float(impl[1][0]) - p[0] + c, float(impl[1][1]) - p[1] + c)
     ill = False
-    if ref is not None:
+    if upsampled:
+        # DFT upsampling replaces the refined position only: the centre-of-mass position of the definition takes its place for the elevation
+        if ref is not None and tol_r > 0.25:
+            ill = True
+        elif ref is not None:
+            irw = (float(ref[0]), float(ref[1]))
+    elif ref is not None:
         if tol_r > 0.25:
             ill = True
         elif not (abs(irw[0] - ref[0]) <= tol_r and abs(irw[1] - ref[1]) <= tol_r):
@@ -447,7 +453,7 @@ def is_csym(mask):
     return bool(np.allclose(mask, mask[np.ix_(t, u)], atol=1e-12))
 
 
-def check_oracle(pattern, frame, peaks, method, outs):
+def check_oracle(pattern, frame, peaks, method, outs, upsampled=False):
     c0 = pattern.get_crop_size()
     shape = (2 * c0, 2 * c0) if method == 'fast' else np.asarray(frame).shape
     if not is_csym(np.asarray(pattern.get_mask(shape), dtype=np.float64)):
@@ -459,7 +465,7 @@ def check_oracle(pattern, frame, peaks, method, outs):
     probs = []
     for i, p in enumerate(peaks):
         impl = (outs[0][i], outs[1][i], outs[2][i], outs[3][i])
-        for pr in oracle_eval(maps[i], impl, c, p, scale):
+        for pr in oracle_eval(maps[i], impl, c, p, scale, upsampled):
             probs.append('peak %s: %s' % (tuple(p), pr))
     return probs
 
@@ -516,6 +522,26 @@ def model_check(ctx, items, pid, what):
     ctx.extra['comparator_flags'] = flags_total
     ctx.extra['traces_validated_against_impl'] = ctx.extra.get('traces_validated_against_impl', 0) + len(vals)
     return ndis
+
+
+def replay_case(body, pid):
+    """replay of a failing input recorded by model_check (case_replay format): the stand-alone kernel on the stored frame / pattern / peak
+    against the definitions (check_oracle)"""
+    import json
+    a = body['args']
+    pattern = pattern_from_desc(a['pattern'])
+    frame = (np.array(a['frame_ints'], dtype=np.float64) / a['one']).astype(np.float32)
+    run = run_fast if a['method'] == 'fast' else run_full
+    try:
+        outs = run(pattern, frame, a['peaks'])
+        probs = check_oracle(pattern, frame, a['peaks'], a['method'], outs)
+    except Exception as e:  # noqa
+        probs = ['raised %s: %s' % (type(e).__name__, e)]
+    print(json.dumps({'replayed': {k: a[k] for k in ('pattern', 'peaks', 'method')}, 'failure_now': probs}, indent=1, default=str))
+    if probs:
+        print('VIOLATION property=%s replay=(given)' % pid)
+        return 1
+    return 0
 
 
 def results_close(a, b, rtol=1e-5, scale=1.0):
